@@ -16,8 +16,8 @@ Proof.
   unfold parse_int.
   destruct (bytes_eqb s s_true); [destruct (N.eqb w 1); discriminate|].
   destruct (bytes_eqb s s_false); [destruct (N.eqb w 1); discriminate|].
-  destruct (strip_prefix p_u0x s); [destruct (parse_hex_N _); discriminate|].
-  destruct (strip_prefix p_s0x s); [destruct (parse_hex_N _); [destruct (N.testbit _ _)|]; discriminate|].
+  destruct (strip_prefix p_u0x s); [destruct (parse_signed_hex _); discriminate|].
+  destruct (strip_prefix p_s0x s); [destruct (parse_signed_hex _); [destruct (Z.testbit _ _)|]; discriminate|].
   destruct (parse_signed_dec s); discriminate.
 Qed.
 
